@@ -19,9 +19,13 @@ import warnings
 
 from ..engine import REPO
 
-FORMATS = ["xyz", "sdf", "mol2", "pdb", "cube", "gromacs", "poscar", "chgcar", "locpot"]
+FORMATS = ["xyz", "sdf", "mol2", "pdb", "cube", "gromacs", "poscar", "chgcar", "locpot", "crd"]
+# stream name -> module of iodata.formats, where they differ
+MODULE = {"crd": "charmm"}
 EXT = {"xyz": (".xyz",), "sdf": (".sdf",), "mol2": (".mol2",), "pdb": (".pdb",), "cube": (".cube", ".cub"),
-       "gromacs": (".gro",)}
+       "gromacs": (".gro",), "crd": (".crd",)}
+# atom records kept of a corpus CRD file (the count line is rewritten accordingly)
+CRD_KEEP = 4
 # the VASP formats are recognised by the START of the file name (PATTERNS of the format modules)
 PREFIX = {"poscar": ("POSCAR",), "chgcar": ("CHGCAR", "AECCAR"), "locpot": ("LOCPOT",)}
 VASP = tuple(PREFIX)
@@ -30,11 +34,11 @@ VASP = tuple(PREFIX)
 VASP_AS_HEADROOM = 2 * 2**30
 CLASSES = ["ValueError", "IndexError", "KeyError", "StopIteration", "TypeError", "LoadError", "OverflowError",
            "MemoryError", "NameError", "AttributeError"]
-EXTRA_KEYS = {"pdb": ["occupancies", "bfactors", "chainids"], "gromacs": ["velocities"]}
+EXTRA_KEYS = {"pdb": ["occupancies", "bfactors", "chainids"], "gromacs": ["velocities"], "crd": ["segid", "resid"]}
 # attribute names the Lean result object represents (order of `Rd.accessors`); `keys=` lists those present in the
 # reader's result dictionary with a value that is not None (any other key is printed as `?name`, which the model
 # never prints), `set=` those that are not None on the constructed IOData object
-ATTR_NAMES = ["atcoords", "atnums", "atcorenums", "atcharges", "atffparams", "bonds", "cellvecs", "cube", "extra",
+ATTR_NAMES = ["atcoords", "atnums", "atcorenums", "atcharges", "atffparams", "atmasses", "bonds", "cellvecs", "cube", "extra",
               "title"]
 ALLOC_LIMIT = 2**30
 PER_CASE_LIMIT = 5
@@ -57,7 +61,12 @@ RULE = (
     "lengths, negative counts, cell or atom lines with other than three numbers, no atoms, grid shape lines with "
     "0/1/2/4/65 integers at the end of the file, zero-sized grids); an `ok` line of these streams also carries "
     "atnums.sum() as a value fingerprint, and the real side checks cell (3,3) / 3-d grid data / axes (3,3) on every "
-    "object the constructor accepted"
+    "object the constructor accepted. CHARMM CRD (rdr:crd): the corpus file crambin.crd cut down to its title "
+    "section, a rewritten count line and its first 4 atom records, plus generated files (title lines without `*`, an "
+    "end marker with trailing blanks, no end marker, no atoms, a count in Arabic-Indic digits, a record with nine "
+    "words, words after the tenth, nan/inf/underscore numbers, non-ASCII residue names); the shapes compared include "
+    "atmasses, the three atffparams arrays and extra['segid'], extra['resid']. rctor includes atmasses (which takes "
+    "part in IOData.natom before atnums)"
 )
 ASSUMPTIONS = [
     "character domain of the reader correspondence: printable ASCII, TAB, LF, U+00A0, U+00E9/U+00C9, U+00B2, "
@@ -71,6 +80,8 @@ ASSUMPTIONS = [
     "pointers (the harness limits the address space of the worker to its current size + 2 GiB while the reader "
     "runs; counts between 2^27 and 2^28 are not generated), OverflowError from 2^63 on; np.linalg.det on a (3, 3) "
     "matrix of finite/inf/nan entries and the division by its result do not raise",
+    "CRD reader: np.array(list) of Python ints of any size, of floats (inf/nan included) and of strings does not "
+    "raise; integer literals beyond sys.get_int_max_str_digits() (4300 digits, a ValueError of int()) are not generated",
 ]
 
 
@@ -110,7 +121,8 @@ def _summary(fmt, res) -> str:
     keys = [a for a in ATTR_NAMES if res.get(a) is not None] + sorted("?" + k for k in res if k not in ATTR_NAMES)
     return (
         f"atcoords={_shape(res.get('atcoords'))} atnums={_shape(res.get('atnums'))} "
-        f"atcorenums={_shape(res.get('atcorenums'))} atcharges={lens(res.get('atcharges'))} "
+        f"atcorenums={_shape(res.get('atcorenums'))} atmasses={_shape(res.get('atmasses'))} "
+        f"atcharges={lens(res.get('atcharges'))} "
         f"atffparams={lens(res.get('atffparams'))} extra={lens(res.get('extra'), EXTRA_KEYS.get(fmt, []))} "
         f"bonds={_shape(res.get('bonds'))} cellvecs={_shape(res.get('cellvecs'))} "
         f"cube={_shape(cube.data) if cube is not None else '-'} keys={','.join(keys) or '-'}"
@@ -141,7 +153,7 @@ def real_outcome(fmt: str, text: str) -> dict:
     from iodata import IOData
     from iodata.utils import LineIterator
 
-    mod = importlib.import_module(f"iodata.formats.{fmt}")
+    mod = importlib.import_module(f"iodata.formats.{MODULE.get(fmt, fmt)}")
     d = tempfile.mkdtemp(prefix="vh-c07r-")
     path = os.path.join(d, "f." + fmt)
     with open(path, "w", encoding="utf-8", newline="") as fh:
@@ -315,6 +327,18 @@ def _generated(fmt: str) -> list[tuple[str, str]]:
             ("gen-empty", "\n\n\n  0  0  0  0  0  0  0  0  0  0999 V2000\nM  END\n$$$$\n"),
         ],
     }
+    g["crd"] = [
+        ("gen-two", "* two atoms\n* second title line\n*\n    2\n"
+                    "    1    1 THR  N     -3.85076  -7.04232   4.62858 MAIN 1     14.00700\n"
+                    "    2    1 THR  HT1   -4.15659  -6.56927   5.49436 MAIN 1      1.00800\n"),
+        ("gen-skip", "no star: skipped\n* t\n\n  * not a title line either\n*   \t \n 3 \n"
+                     " 1 1 A B 1e0 -2.5E-1 +.5 S 1 1.0 extra words\n 2 -2 A B nan inf 0 S 1_0 0\n"
+                     "\t3 3 \u00e9 \u20ac 1 2 3 S +4 .5\ntrailing line\n* star after the atoms\n"),
+        ("gen-zero", "*\n0\nnot read\n"),
+        ("gen-nomarker", "* title without the bare star\n* 1\n 1 1 A B 0 0 0 S 1 1.0\n"),
+        ("gen-count", "*\n\u0661\n 1 1 A B 0 0 0 S 1 1.0\n"),
+        ("gen-short", "* t\n*\n2\n 1 1 A B 0 0 0 S 1 1.0\n 2 1 A B 0 0 0 S 1\n"),
+    ]
     hdr = "title\n 1.0\n 4.0 0.0 0.0\n 0.0 4.0 0.0\n 0.0 0.0 4.0\n"
     vasp_grid = [
         ("gen-h2", hdr + " H\n 2\nDirect\n 0.0 0.0 0.0\n 0.5 0.5 0.5\n\n 2 1 3\n 1.0 2.0 3.0 4.0\n 5.0E+00 6.0\n"
@@ -357,10 +381,27 @@ def _sources(fmt: str) -> list[tuple[str, str]]:
         hit = p.name.startswith(PREFIX[fmt]) if fmt in PREFIX else p.suffix in EXT[fmt]
         if p.is_file() and hit and p.stat().st_size < 60_000:
             try:
-                out.append((p.name, p.read_text()))
+                text = p.read_text()
             except UnicodeDecodeError:
                 continue
+            if fmt == "crd":
+                text = _crd_cut(text)
+            out.append((p.name, text))
     return out + _generated(fmt)
+
+
+def _crd_cut(text: str) -> str:
+    """a corpus CRD file cut down to its title section, the count line and the first CRD_KEEP atom records"""
+    lines = text.splitlines(keepends=True)
+    for i, line in enumerate(lines):
+        if line.startswith("*") and not line[1:].strip():
+            break
+    else:
+        return text
+    if i + 1 >= len(lines) or not lines[i + 1].strip().isdigit():
+        return text
+    atoms = lines[i + 2: i + 2 + CRD_KEEP]
+    return "".join(lines[: i + 1]) + f"{len(atoms):5d}\n" + "".join(atoms)
 
 
 _INT_RE = re.compile(r"(?<![\w.+-])\d+(?![\w.])")
@@ -527,6 +568,7 @@ def _rctor_cases(ctx):
     for _ in range(ctx.n(1500, 20000)):
         atcoords, atnums, atcorenums = rshape(2), rshape(1), rshape(1)
         bonds, cellvecs = rshape(2), rshape(2)
+        atmasses = rshape(1)
         chg = [rng.choice([0, 1, 2, 3, 3, 4]) for _ in range(rng.choice([0, 0, 1, 2]))]
         kw = {}
         if atcoords is not None:
@@ -539,6 +581,8 @@ def _rctor_cases(ctx):
             kw["bonds"] = np.zeros(bonds, int)
         if cellvecs is not None:
             kw["cellvecs"] = np.zeros(cellvecs)
+        if atmasses is not None:
+            kw["atmasses"] = np.zeros(atmasses)
         if chg:
             kw["atcharges"] = {f"k{i}": np.zeros(c) for i, c in enumerate(chg)}
         try:
@@ -557,7 +601,7 @@ def _rctor_cases(ctx):
             return "-" if s is None else ("x".join(map(str, s)) or "s")
 
         reqs.append(f"rctor {sh(atcoords)} {sh(atnums)} {sh(atcorenums)} {','.join(map(str, chg)) or '-'} "
-                    f"{sh(bonds)} {sh(cellvecs)}")
+                    f"{sh(bonds)} {sh(cellvecs)} {sh(atmasses)}")
     return reqs, outs
 
 
